@@ -70,7 +70,8 @@ def gen_case(r: Any, idx: int) -> dict:
     hot = r.random() < 0.4
     tl = gen_timeline(r, domain, maxlen=7)
     n = sum(1 for m in tl if m[1] == "N")
-    P: dict = {"sched": r.choice(["arg", "sub"])}
+    # "both": the operator gets the lab's scheduler AND subscribe() hands down another, working scheduler whose clock is frozen
+    P: dict = {"sched": r.choice(["arg", "sub", "both"]) if op not in ("throttle_with_mapper", "sample_obs") else r.choice(["arg", "sub"])}
     if op in ("debounce", "throttle_with_timeout"):
         P["d"] = r.choice(DUES)
         P["shape"] = r.choice(T.SHAPES_REL)
@@ -97,7 +98,7 @@ def gen_case(r: Any, idx: int) -> dict:
 def build(case: dict, lab: Lab, src: Any) -> Any:
     op, P = case["op"], case["P"]
     T.arm(lab)
-    sch = lab.ts if P["sched"] == "arg" else None
+    sch = lab.ts if P["sched"] in ("arg", "both") else None
     if op == "debounce":
         return src.pipe(ops.debounce(T.due(lab, P["shape"], rel=P["d"]), scheduler=sch))
     if op == "throttle_with_timeout":
@@ -296,7 +297,9 @@ def run_case(seed: int, idx: int, res: UnitResult) -> None:
     case = gen_case(r, idx)
     op, P = case["op"], case["P"]
     msgs, seen = make_input(r, case["tl"], case["hot"])
-    lab, obs, src = run_single(lambda lab, s: build(case, lab, s), msgs, case["hot"], clock=case["clock"],
+    if P["sched"] == "both":
+        res.count("cases_with_a_different_scheduler_at_subscribe")
+    lab, obs, src = run_single(lambda lab, s: build(case, lab, s), msgs, case["hot"], clock=case["clock"], sub_scheduler=T.frozen_scheduler if P["sched"] == "both" else None,
                                dispose_at=END if op == "sample_period" else None)
     desc = describe(case)
     if T.spun(lab):
